@@ -394,6 +394,19 @@ Definition send_sync (c : cfg) (x : bool) (s : st) (tag ln : N) : st * N :=
       else (s, 2)
   end.
 
+(* NotificationSink::send_sync_notification on a clone of the sink of stream k, without the handle (no lookup in
+   `peers`, no `clogged` set, no ForceClose): 0 Ok, 1 ChannelClogged, 2 NoConnection *)
+Definition sink_sync (c : cfg) (x : bool) (s : st) (k tag ln : N) : st * N :=
+  let e := gep s x in let cn := ec e in let g := eg e in
+  if live s x k then
+    if len (e_sq cn) <? c_s (ecf c x) then
+      let n := mkN x k true tag ln in
+      (sep s x (mkEp (mkC (e_alive cn) (e_per cn) (e_shut cn) (e_sq cn ++ [n]) (e_aq cn) (e_cur cn) (e_sk cn)
+                          (e_hints cn) (e_res cn) (e_rwait cn)) (eh e)
+                     (mkG (e_acc g ++ [n]) (e_del g) (e_dper g) (e_fclog g) (e_fclost g) (e_seen g) (e_aok g) (e_aerr g))), 0)
+    else (s, 1)
+  else (s, 2).
+
 Definition set_async (x : bool) (aq : list notif) (ws : list waiter) (acc : list notif) (ok err : N) (s : st) : st :=
   let e := gep s x in let cn := ec e in let h := eh e in let g := eg e in
   sep s x (mkEp (mkC (e_alive cn) (e_per cn) (e_shut cn) (e_sq cn) aq (e_cur cn) (e_sk cn) (e_hints cn) (e_res cn) (e_rwait cn))
@@ -473,7 +486,8 @@ Inductive step :=
 | SCmd (x : bool)
 | SCmdFail (x : bool)
 | SGate (x : bool) (w r : bool)
-| SKill.
+| SKill
+| SSinkSync (x : bool) (k tag ln : N).
 
 Inductive res := RCode (v : N) | RUser (e : uev).
 
@@ -503,6 +517,7 @@ Definition do_step (c : cfg) (s : st) (t : step) : st * res :=
       else (set_hnd x (mkH (e_ws h) (e_nq h) (e_evs h) (e_peers h) (e_clog h) (e_cmds h - 1)) (eg e) s, RCode 1)
   | SGate x w r => (slo s x (mkL w r (carrier (glo s x))), RCode 0)
   | SKill => if per s =? 0 then (s, RCode 1) else (kill s, RCode 0)
+  | SSinkSync x k tag ln => let '(s1, r) := sink_sync c x s k tag ln in (s1, RCode r)
   end.
 
 Fixpoint run (c : cfg) (s : st) (ts : list step) : st * list res :=
